@@ -89,6 +89,9 @@ func stallCheck(t *testing.T) {
 			}()
 			synctest.Test(t, func(t *testing.T) {
 				tc := tap.New(nil)
+				// every other case: a flow-controlled transport whose peer does not read, so that a write (the alert)
+				// blocks until a write deadline is set
+				tc.BlockWrites = ji%2 == 1
 				tc.Feed(hellos[j.h][:j.off])
 				ctx, cancel := context.WithTimeout(context.Background(), d)
 				defer cancel()
